@@ -5,7 +5,8 @@
 From Coq Require Import String List.
 From CMinx Require Import Base.Str Model.Parser Model.Writer Model.DocTypes Model.Aggregator
      Spec.AggSpec Gen.SourceLiterals Proofs.AggClass Proofs.LiteralsMatch
-     Base.PySem Gen.PySource Proofs.SourceMatch.
+     Base.PySem Gen.PySource Proofs.SourceMatch
+     Proofs.SourceMatch2.
 Import ListNotations.
 
 (* cpp_class ... cpp_end_class is balanced: commands after cpp_end_class belong to the enclosing
@@ -177,3 +178,61 @@ Theorem C09_attribute_process_matches_source :
     = w_add w (render_attribute a).
 Proof. exact attribute_process_matches_source. Qed.
 Print Assumptions C09_attribute_process_matches_source.
+
+(* py2coq batch 4: the cpp_class / cpp_attr / cpp_member / cpp_constructor methods as regenerated from aggregator.py equal the model steps *)
+Theorem C09_process_cpp_class_matches_source :
+  forall c doc docd st,
+    (documented (process_class c doc docd st), py_class_stack (class_stack (process_class c doc docd st)))
+    = PySource.DocumentationAggregator_process_cpp_class c doc
+        (documented st) (py_class_stack (class_stack st)).
+Proof. exact process_cpp_class_matches_source. Qed.
+Print Assumptions C09_process_cpp_class_matches_source.
+
+Theorem C09_process_class_frame :
+  forall c doc docd st,
+    def_stack (process_class c doc docd st) = def_stack st
+    /\ awaiting (process_class c doc docd st) = awaiting st.
+Proof. exact process_class_frame. Qed.
+Print Assumptions C09_process_class_frame.
+
+Theorem C09_process_cpp_attr_matches_source :
+  forall c doc docd st,
+    same_docs (documented (process_attr c doc docd st))
+      (PySource.DocumentationAggregator_process_cpp_attr c doc
+         (documented st) (py_class_stack (class_stack st))).
+Proof. exact process_cpp_attr_matches_source. Qed.
+Print Assumptions C09_process_cpp_attr_matches_source.
+
+Theorem C09_process_attr_frame :
+  forall c doc docd st, same_stacks (process_attr c doc docd st) st.
+Proof. exact process_attr_frame. Qed.
+Print Assumptions C09_process_attr_frame.
+
+Theorem C09_process_cpp_member_matches_source :
+  forall is_ctor c doc docd st,
+    same_docs (documented (process_member is_ctor c doc docd st))
+      (fst (PySource.DocumentationAggregator_process_cpp_member c doc is_ctor
+              (documented st) (py_class_stack (class_stack st)) (awaiting st)))
+    /\ awaiting (process_member is_ctor c doc docd st)
+       = snd (PySource.DocumentationAggregator_process_cpp_member c doc is_ctor
+                (documented st) (py_class_stack (class_stack st)) (awaiting st)).
+Proof. exact process_cpp_member_matches_source. Qed.
+Print Assumptions C09_process_cpp_member_matches_source.
+
+Theorem C09_process_cpp_constructor_matches_source :
+  forall c doc docd st,
+    same_docs (documented (process_member true c doc docd st))
+      (fst (PySource.DocumentationAggregator_process_cpp_constructor c doc
+              (documented st) (py_class_stack (class_stack st)) (awaiting st)))
+    /\ awaiting (process_member true c doc docd st)
+       = snd (PySource.DocumentationAggregator_process_cpp_constructor c doc
+                (documented st) (py_class_stack (class_stack st)) (awaiting st)).
+Proof. exact process_cpp_constructor_matches_source. Qed.
+Print Assumptions C09_process_cpp_constructor_matches_source.
+
+Theorem C09_process_member_frame :
+  forall is_ctor c doc docd st,
+    class_stack (process_member is_ctor c doc docd st) = class_stack st
+    /\ def_stack (process_member is_ctor c doc docd st) = def_stack st.
+Proof. exact process_member_frame. Qed.
+Print Assumptions C09_process_member_frame.
